@@ -350,7 +350,30 @@ def knn(rep):
         ok_r = None
     rep.ob("O2.5", "MONO", fi, ok_r, it, "exactly n_knn expansion rounds", node=lp)
     exits = [n for n in walk_local(lp) if isinstance(n, (ast.Break, ast.Return, ast.Continue))]
-    rep.ob("O2.5", "MONO", fi, not exits, f"loop exits: {[type(e).__name__ for e in exits]}", "no round is cut short", node=lp)
+    # a `break` taken when a whole round added nothing is no cut: the set is closed under neighbours, later rounds are no-ops
+    #     before = len(S) ... S.update(...) ... if len(S) == before: break        (the test must come after the round's update, at the end of the body)
+    fixpoint = []
+    ldefs = local_defs(lp)
+    pml = parent_map(lp)
+    for e in exits:
+        if not isinstance(e, ast.Break):
+            continue
+        gs = [(t, sn) for t, sn in guards_of(pml, e, lp)]
+        if len(gs) != 1 or not gs[0][1]:
+            continue
+        mm = pmatch("len($s) == $b", gs[0][0])
+        if mm is None:
+            continue
+        snap = [d_ for d_ in ldefs.get(mm["b"], []) if d_.kind == "assign" and pmatch(f"len({mm['s']})", d_.value) is not None]
+        grow = [c for c in walk_local(lp) if isinstance(c, ast.Call) and isinstance(c.func, ast.Attribute) and norm(c.func.value) == mm["s"] and c.func.attr in ("update", "add", "__ior__")]
+        grow += [a_ for a_ in walk_local(lp) if isinstance(a_, ast.AugAssign) and isinstance(a_.op, ast.BitOr) and norm(a_.target) == mm["s"]]
+        test_stmt = pml.get(e)
+        if len(snap) == 1 and grow and len(ldefs.get(mm["b"], [])) == 1 and snap[0].stmt.lineno < min(g_.lineno for g_ in grow) \
+                and max(g_.lineno for g_ in grow) < test_stmt.lineno and lp.body[-1] is test_stmt:
+            fixpoint.append(e)
+    exits = [e for e in exits if e not in fixpoint]
+    rep.ob("O2.5", "MONO", fi, not exits, f"loop exits: {[type(e).__name__ for e in exits]}" + (f" (+{len(fixpoint)} fixed-point exit)" if fixpoint else ""),
+           "no round is cut short (a break after a round that added nothing is not a cut)", node=lp)
     muts = [c for c in walk_local(lp) if isinstance(c, ast.Call) and isinstance(c.func, ast.Attribute)
             and dotted(c.func.value) == acc]
     kinds = sorted({c.func.attr for c in muts})
